@@ -483,6 +483,8 @@ impl<'a> LineBreaker<'a> {
         emergency_stretch: common::Scaled,
         force_solution: bool,
     ) -> Option<Vec<usize>> {
+        // TeX.2021.863: if threshold>inf_bad then threshold:=inf_bad
+        let tolerance = tolerance.min(INFINITE_BADNESS);
         let mut auto_breaking = true;
         let mut passive_nodes = vec![PassiveNode {
             elem: 0,
